@@ -166,6 +166,9 @@ def generate(rng, tier, n):
         if rng.random() < 0.10:                        # tiny non-zero magnitudes (below float32 eps, above its smallest subnormal)
             rows[rng.randrange(N)][rng.randrange(20)] = f2b(rng.choice([3e-8, -7.5e-10, 1e-20, -2.5e-30, 1.2e-7]))
         case = dict(cols=cols, rows=rows, build=rng.choice(["dict", "reindex", "late_nan"]))
+        k = rng.random()                              # row labels of the DataFrame (a list is its rows in order, whatever the labels)
+        if k < 0.45 and N >= 2:
+            case["index"] = rng.choice(["permuted", "offset", "sparse", "duplicated"])
         case["default_type"] = rng.random() < 0.3      # G1: Motl.write_out(p) without motl_type (default must be 'emmotl')
         case["same_path_twice"] = rng.random() < 0.2   # G2: the path already holds another (longer) list before the write
         if N >= 2 and rng.random() < 0.25:             # history: load the written file, drop particles, write again
@@ -219,6 +222,16 @@ def run_impl(case):
         df = base[cols]
     else:
         df = pd.DataFrame({c: [v[i] for v in vals] for i, c in enumerate(cols)}, dtype=float)
+    n = len(df)
+    ik = case.get("index")
+    if ik == "permuted":
+        df.index = [(7 * i + 3) % n if math.gcd(7, n) == 1 else (n - 1 - i) for i in range(n)]
+    elif ik == "offset":
+        df.index = [i + 5 for i in range(n)]
+    elif ik == "sparse":
+        df.index = [3 * (n - i) for i in range(n)]
+    elif ik == "duplicated":
+        df.index = [i // 2 for i in range(n)]
     out = {}
     late = case.get("build") == "late_nan" and not case.get("malformed")
     with tempfile.TemporaryDirectory(prefix="c01_") as td:
@@ -234,7 +247,8 @@ def run_impl(case):
                 if late:
                     # holes appear AFTER construction (the constructor's own fillna cannot help the writer)
                     mm = (cryomotl.Motl if path_kind == "motl" else cryomotl.EmMotl)(df.fillna(1.0))
-                    mm.df = mm.df.astype(float).where(~df.isna().to_numpy(), np.nan) if list(mm.df.columns) == list(df.columns) else mm.df
+                    if list(mm.df.columns) == list(df.columns) and len(mm.df) == len(df):
+                        mm.df = pd.DataFrame(np.where(df.isna().to_numpy(), np.nan, mm.df.to_numpy(dtype=float)), columns=mm.df.columns, index=mm.df.index)
                     if path_kind == "motl":
                         wo(mm)
                     else:
@@ -357,7 +371,7 @@ def stats(case, obs, resps):
             ("transposition" if sum(a != b for a, b in zip(case["cols"], DOCUMENTED)) == 2 else "shuffle"))
     return {"N": "1" if n == 1 else ("20" if n == 20 else ("2-10" if n <= 10 else ("11-40" if n <= 40 else ">40"))), "perm": perm, "build": case.get("build", "dict"),
             "history": "load-drop-write" if case.get("reload_keep") else "single round trip",
-            "default_motl_type": bool(case.get("default_type")), "path_reused": bool(case.get("same_path_twice")),
+            "row_index": case.get("index", "default"), "default_motl_type": bool(case.get("default_type")), "path_reused": bool(case.get("same_path_twice")),
             "all_nan_row": any(all(math.isnan(b2f(b)) for b in r) for r in case["rows"])}
 
 
